@@ -18,6 +18,7 @@ IMPORTS = """From TxV Require Import Core.Base Core.Show Gen.SrcFront Model.Fron
 Open Scope string_scope."""
 
 FUEL_MARGIN = 3
+KIND_LETTER = {"match": "m", "abstract": "a", "common": "c"}
 
 
 # ------------------------------------------------------------------ Coq terms
@@ -123,10 +124,10 @@ def q_user(case):
 
 def coq_case(case, res):
     if "parse_exc" in res:
-        return "show_case src_cfg (orc_of [] [] []) %s 1 (GParseRaises %s)" % (q_user(case), q_exc(res["parse_exc"])), []
+        return "show_case_kinds src_cfg (orc_of [] [] []) %s 1 (GParseRaises %s)" % (q_user(case), q_exc(res["parse_exc"])), []
     ast = res["ast"]
     o, bad = q_oracles(res["oracle"])
-    return "show_case src_cfg %s %s %d %s" % (o, q_user(case), len(ast["rules"]) + FUEL_MARGIN, q_input(ast)), bad
+    return "show_case_kinds src_cfg %s %s %d %s" % (o, q_user(case), len(ast["rules"]) + FUEL_MARGIN, q_input(ast)), bad
 
 
 # ------------------------------------------------------------------ canonical implementation outcome
@@ -285,7 +286,7 @@ def evaluate(chk, cases, tag="C23"):
         chk.stat("impl " + ci)
         chk.stat("kind " + kind)
         if mv is not None:
-            m_out, _, m_cls = mv.partition("|")
+            m_out, m_cls, m_kinds = (mv.split("|") + ["", ""])[:3]
             ok = (m_out == ci)
             if not ok and m_cls and m_out in m_cls.split(","):
                 # the last phase (_resolve_cls_refs walks the class graph depth-first) is modelled up to the
@@ -295,6 +296,19 @@ def evaluate(chk, cases, tag="C23"):
                     chk.stat("order-abstracted class-reference error")
             if not ok:
                 disagreements.append({"case": c["text"], "kwargs": c["kwargs"], "kind": c["kind"], "impl": impl, "impl_canon": ci, "model": mv})
+            elif ci == "OK":
+                # rule kinds: Kinds.determine_types on to_kinds(grammar) vs cls._tx_type of every class of the namespace.
+                # Not comparable: rules of referenced languages (their kind is not an input of the model) and the
+                # __base__ class OBJECT (created abstract; Kinds starts every rule as match).
+                if "kinds" not in res:
+                    disagreements.append({"case": c["text"], "impl": impl, "model": "rule kinds not readable: " + str(res.get("kinds_error"))})
+                elif res["oracle"]["ext"] or re.search(r"\bOBJECT\b", c["text"]):
+                    chk.stat("rule kinds not compared (foreign rule / OBJECT)")
+                else:
+                    ik = "".join(KIND_LETTER.get(k, "?") for _, k in res["kinds"])
+                    chk.stat("rule kinds compared")
+                    if ik != m_kinds:
+                        disagreements.append({"case": c["text"], "kwargs": c["kwargs"], "kind": c["kind"], "impl": res["kinds"], "impl_canon": "kinds " + ik, "model": "kinds " + m_kinds})
         bad = property_verdict(c, res)
         if bad:
             failures.append({"case": {"text": c["text"], "kwargs": c["kwargs"], "user": c.get("user"), "kind": c["kind"]}, "impl": impl, "model": mv, "what": bad, "tags": c["tags"]})
@@ -305,7 +319,7 @@ def evaluate(chk, cases, tag="C23"):
 
 def run(chk):
     chk.prove([front_tr.translate, kinds_tr.translate])   # Model/Front.v runs C03's Model/Kinds.v (Gen/SrcKinds.v)
-    n = 9000 if chk.thorough else 640
+    n = 6000 if chk.thorough else 640
     cases = load_corpus() + gen_cases(chk, n)
     if chk.thorough:
         cases += exhaustive_token_edits(chk)
@@ -334,7 +348,7 @@ def run(chk):
 # ------------------------------------------------------------------ thorough: all single-token drops/duplications
 def exhaustive_token_edits(chk):
     out = []
-    for gi in range(40):
+    for gi in range(24):
         r = chk.rng.split("exh%d" % gi)
         g = c23_gen.G(r, nrules=r.range(1, 3))
         toks = c23_gen.tokens(g.text())
